@@ -395,6 +395,8 @@ class World:
     def hir(self, crate):
         if crate not in self._hir:
             self._hir[crate] = facts.load(self.dir, crate, 'hir')
+            self.inlined = getattr(self, 'inlined', {})
+            self.inlined[crate] = inline_new_helpers(self._hir[crate]['fns'], reference_fn_ids())
         return self._hir[crate]
 
     def mir(self, crate):
@@ -542,6 +544,124 @@ class World:
         if self._cg is None:
             self._cg = CallGraph(self)
         return self._cg
+
+
+# --------------------------------------------------------------------------- helper extraction
+_REF_FNS = None
+
+
+def reference_fn_ids():
+    """ids of every function of the reference tree (rules/fn_index.json, all feature configurations); None when the table is absent"""
+    global _REF_FNS
+    if _REF_FNS is None:
+        p = os.path.join(facts.VERIF, 'rules', 'fn_index.json')
+        _REF_FNS = frozenset(json.load(open(p))) if os.path.exists(p) else False
+    return _REF_FNS or None
+
+
+def _shift_locals(n, base):
+    """add `base` to every local id of a (copied) HIR subtree: nodes {n: name, i: int}"""
+    stack = [n]
+    while stack:
+        x = stack.pop()
+        if isinstance(x, dict):
+            if isinstance(x.get('i'), int) and isinstance(x.get('n'), str):
+                x['i'] += base
+            stack.extend(v for v in x.values() if isinstance(v, (dict, list)))
+        elif isinstance(x, list):
+            stack.extend(v for v in x if isinstance(v, (dict, list)))
+
+
+def _is_err_value(e):
+    e = peel(e) if isinstance(e, dict) else {}
+    c = (e.get('f') or e.get('p') or '') if e.get('k') in ('call', 'path') else ''
+    if e.get('k') == 'call' and not c and isinstance(e.get('fe'), dict):
+        c = e['fe'].get('p') or ''
+    return c.endswith('Result::Err') or c.endswith('::Err')
+
+
+def inline_new_helpers(fns, ref_ids, max_depth=3):
+    """Helper extraction is behaviour preserving: a function that does not exist on the reference tree (a NEW helper) is expanded at its call sites
+    (same crate, unambiguous id, no recursion), so that the intra-procedural rules see the caller as it was before the extraction.
+    call f(a, b)  ==>  block { let <param0> = a; let <param1> = b; <body of f> }     (locals renumbered; `return v` of the helper becomes the value of
+    the block — kind `iret` — unless v is an Err(..): an error returned by a helper called with `?` leaves the caller as well).
+    Returns {caller id: [inlined helper ids]}."""
+    import copy
+    if not ref_ids:
+        return {}
+    by_id = defaultdict(list)
+    for f in fns:
+        if '_nid' not in f:
+            f['_nid'] = norm(f['id'])
+            f['_xid'] = normx(f['id'])
+        by_id[f['_nid']].append(f)
+    new = {nid: l[0] for nid, l in by_id.items() if nid not in ref_ids and len(l) == 1 and 'body' in l[0] and '{closure' not in nid}
+    if not new:
+        return {}
+    pristine = {nid: copy.deepcopy(f['body']) for nid, f in new.items()}
+    done = {}
+    counter = [0]
+
+    def expand(node, chain, caller):
+        """rewrite call nodes below `node` in place"""
+        stack = [node]
+        while stack:
+            x = stack.pop()
+            if isinstance(x, list):
+                stack.extend(v for v in x if isinstance(v, (dict, list)))
+                continue
+            if x.get('k') in ('call', 'mcall'):
+                c = callee(x)
+                h = new.get(c) if c else None
+                if h is not None and c not in chain and len(chain) < max_depth:
+                    args = ([x['recv']] if x.get('k') == 'mcall' else []) + list(x.get('args', []))
+                    params = copy.deepcopy(h.get('params', []))
+                    if len(params) == len(args):
+                        counter[0] += 1
+                        base = 100000 * counter[0]
+                        body = copy.deepcopy(pristine[c])
+                        _shift_locals(body, base)
+                        _shift_locals(params, base)
+                        for r in walk(body, into_closures=False):
+                            if r.get('k') == 'ret' and 'e' in r and not _is_err_value(r['e']):
+                                r['k'] = 'iret'
+                        lets = [dict(k='let', l=x.get('l'), pat=p_, init=a) for p_, a in zip(params, args)]
+                        keep = {kk: x[kk] for kk in ('l', 't', 'x') if kk in x}
+                        x.clear()
+                        x.update(keep)
+                        x.update(k='block', ss=lets, e=body, inl=c)
+                        done.setdefault(caller, []).append(c)
+                        expand(x['e'], chain + [c], caller)
+                        stack.extend(l_['init'] for l_ in lets)
+                        continue
+            stack.extend(v for v in x.values() if isinstance(v, (dict, list)))
+
+    for f in fns:
+        if 'body' in f and isinstance(f['body'], dict):
+            expand(f['body'], [f['_nid']] if f['_nid'] in new else [], f['_nid'])
+    return done
+
+
+def alias_roots(body):
+    """{local id: local id it merely renames}: `let a = b;`, `let a = &b;`, `let a = b.as_ref();`, `let a = b.clone();` (as produced, in particular, by
+    the expansion of a new helper, whose parameters are bound to the arguments with `let`); chains are followed"""
+    al = {}
+    for x in walk(body):
+        if x.get('k') == 'let' and 'init' in x and x.get('pat', {}).get('k') == 'bind':
+            e = peel(x['init'])
+            while True:
+                if e.get('k') in ('ref', 'addr', 'deref', 'un', 'cast') and isinstance(e.get('e'), dict):
+                    e = peel(e['e'])
+                elif e.get('k') == 'mcall' and e.get('m') in ('as_ref', 'clone', 'borrow', 'as_slice', 'iter') and not e.get('args'):
+                    e = peel(e['recv'])
+                else:
+                    break
+            if e.get('k') == 'local':
+                al[x['pat']['i']] = e['i']
+
+    def root(i, depth=0):
+        return root(al[i], depth + 1) if i in al and depth < 20 else i
+    return {i: root(i) for i in al}
 
 
 class AnchorMissing(Exception):
